@@ -6,12 +6,12 @@
 package pfcpiface
 
 import (
-	"time"
 	"encoding/json"
 	"fmt"
 	"net"
 	"strings"
 	"testing"
+	"time"
 
 	"github.com/wmnsk/go-pfcp/ie"
 	"github.com/wmnsk/go-pfcp/message"
